@@ -266,12 +266,18 @@ fn get_match_statically_known(
     provider.query_variable = &query_variable;
     provider.query_function = &asm::resolver::get_statically_known_builtin_fn;
 
+    // Arguments are evaluated in the context of the instruction,
+    // where the rule's parameters are not visible.
+    let mut args_provider = expr::StaticallyKnownProvider::new();
+    args_provider.query_variable = &query_variable;
+    args_provider.query_function = &asm::resolver::get_statically_known_builtin_fn;
+
     for i in 0..rule.parameters.len()
     {
         let param = &rule.parameters[i];
         let arg = &mtch.args[i];
 
-        match param.typ
+        let value_known = match param.typ
         {
             asm::RuleParameterType::Unspecified |
             asm::RuleParameterType::Integer(_) |
@@ -280,15 +286,11 @@ fn get_match_statically_known(
             {
                 if let InstructionArgumentKind::Expr(ref arg_expr) = arg.kind
                 {
-                    if arg_expr.is_value_statically_known(&provider)
-                    {
-                        provider.locals.insert(
-                            param.name.clone(),
-                            expr::StaticallyKnownLocal {
-                                value_known: true,
-                                ..expr::StaticallyKnownLocal::new()
-                            });
-                    }
+                    arg_expr.is_value_statically_known(&args_provider)
+                }
+                else
+                {
+                    false
                 }
             }
 
@@ -296,22 +298,28 @@ fn get_match_statically_known(
             {
                 if let asm::InstructionArgumentKind::Nested(ref nested_match) = arg.kind
                 {
-                    if get_match_statically_known(
+                    get_match_statically_known(
                         decls,
                         defs,
                         symbol_ctx,
                         nested_match)
-                    {
-                        provider.locals.insert(
-                            param.name.clone(),
-                            expr::StaticallyKnownLocal {
-                                value_known: true,
-                                ..expr::StaticallyKnownLocal::new()
-                            });
-                    }
+                }
+                else
+                {
+                    false
                 }
             }
-        }
+        };
+
+        // Within the rule's production, a parameter always hides
+        // a global symbol of the same name, whether or not
+        // its argument is statically known.
+        provider.locals.insert(
+            param.name.clone(),
+            expr::StaticallyKnownLocal {
+                value_known,
+                ..expr::StaticallyKnownLocal::new()
+            });
     }
 
     rule.expr.is_value_statically_known(&provider)
